@@ -828,6 +828,12 @@ func (t *State) doTxInternal(tx *pb.Transaction, batch kvdb.Batch, cacheFiller *
 		t.log.Warn("coinbase tx spends outputs or writes keys", "txid", utils.F(tx.Txid))
 		return ErrInvalidCoinbaseTx
 	}
+	// likewise the autogen flag exempts a transaction from signature verification: only the shape of the timer
+	// transaction the node generates itself (a read / write set, checked by ImmediateVerifyAutoTx) may carry it
+	if tx.Autogen && (len(tx.TxInputs) > 0 || len(tx.TxOutputs) > 0 || !t.verifyAutogenTxValid(tx)) {
+		t.log.Warn("autogen tx moves tokens or has no read/write set", "txid", utils.F(tx.Txid))
+		return ErrInvalidAutogenTx
+	}
 	if tx.GetModifyBlock() == nil || (tx.GetModifyBlock() != nil && !tx.ModifyBlock.Marked) {
 		if err := t.utxo.CheckInputEqualOutput(tx); err != nil {
 			return err
